@@ -59,7 +59,7 @@ func coreCfg(c *sim.Case, script []int16, strict, keepLog bool) core.Config {
 	cfg := core.Config{Seed: s.Seed, Policy: polNames[s.Policy], StickyPct: s.StickyPct, PCTDepth: s.PCTDepth,
 		PCTLen: s.PCTLen, FreezeAt: s.FreezeAt, Probe: s.Probe, TickPct: s.TickPct, SpinBurn: s.SpinBurn, ClockJumpPct: s.ClockJumpPct, MaxSteps: s.MaxSteps, KeepLog: keepLog}
 	for _, st := range s.Stalls {
-		cfg.Stalls = append(cfg.Stalls, core.Stall{T: st.T, At: st.At, For: st.For, AfterW: st.AfterW})
+		cfg.Stalls = append(cfg.Stalls, core.Stall{T: st.T, At: st.At, For: st.For, AfterW: st.AfterW, AfterS: st.AfterS})
 	}
 	if script != nil {
 		cfg.Policy = core.PolScript
